@@ -242,4 +242,5 @@ func init() {
 	register("C25", newC25, newC25Requestor)
 	register("C09", newC09)
 	register("C10", newC10)
+	register("C01", newC01)
 }
